@@ -177,6 +177,10 @@ def run(ctx):
         _x14.check_import_guard(ck, prog, config, 'C14-d')
         from . import c19 as _c19
         _c19.shared_scratch(ck, prog, config, 'C14-e', ('zck_get_chunk_data', 'zck_get_chunk_comp_data'), 'random access')
+        # ---- g  whoever ends a chunk on the read side leaves the reader in a defined state (shared with C01-j): the
+        #         last chunk and repeated requests depend on it
+        from ..rules import extra as _x14g
+        _x14g.check_end_of_data(ck, prog, config, 'C14-g')
         # ---- f  request history includes validity scans: they hand the context back with the descriptor at the data
         #         section and the running data hash re-initialised (shared with C09-b)
         from . import c09 as _c09
